@@ -238,6 +238,31 @@ def _never_none(t, depth=0):
     return False
 
 
+def _none_condition(t, depth=0):
+    """True / False / a Boolean term: when is the alternative tree ``t`` None?  (None when some leaf is undecided)"""
+    if depth > 8:
+        return None
+    if is_const(t, None):
+        return True
+    if t.op == "ite":
+        a, b = _none_condition(t.a[1], depth + 1), _none_condition(t.a[2], depth + 1)
+        if a is None or b is None:
+            return None
+        c = t.a[0]
+        if a is True and b is False:
+            return c
+        if a is False and b is True:
+            return unop("not", c)
+        if a is b and a in (True, False):
+            return a
+        ta = const(True) if a is True else (const(False) if a is False else a)
+        tb = const(True) if b is True else (const(False) if b is False else b)
+        return boolop("or", [boolop("and", [c, ta]), boolop("and", [unop("not", c), tb])])
+    if _never_none(t):
+        return False
+    return None
+
+
 def assume(t, c, pol, memo=None):
     """``t`` on a path where the condition ``c`` has the truth value ``pol``: conditionals on that very condition
     collapse to the branch taken."""
@@ -263,12 +288,13 @@ def cmp(op, l, r):
     if op in ("is", "isnot") and (is_const(l, None) or is_const(r, None)):
         other = r if is_const(l, None) else l
         if other.op == "ite":
-            c, x, y = other.a
-            # (None if c else X) is None  <=>  c, when X is the result of a computation that is never None
-            if is_const(x, None) and _never_none(y):
-                return c if op == "is" else unop("not", c)
-            if is_const(y, None) and _never_none(x):
-                return unop("not", c) if op == "is" else c
+            # a tree of alternatives each of which is the literal None or a value that is never None:
+            # `X is None` is the condition under which a None leaf is reached
+            cn = _none_condition(other)
+            if cn is not None:
+                if cn is True or cn is False:
+                    return const(cn if op == "is" else (not cn))
+                return cn if op == "is" else unop("not", cn)
     if op in ("==", "!=", "is", "isnot") and r.id < l.id:
         l, r = r, l
     return mk("cmp", op, l, r)
@@ -324,6 +350,10 @@ def call(fn, args=(), kw=()):
         fn = ext(name)
     if name in CMP_FUNCS and len(args) == 2 and not kw:
         return cmp(CMP_FUNCS[name], args[0], args[1])
+    if name == "np.count_nonzero" and args and args[0].op in ("cmp", "bool"):
+        # counting the True entries of a Boolean array is summing it
+        name = "np.sum"
+        fn = ext(name)
     if name in TRANSPARENT and len(args) == 1 and not kw:
         return args[0]
     if name == "np.asarray" and len(args) == 1:
@@ -382,18 +412,29 @@ def sub(base, idx):
     # a conditionally chosen index or a conditionally chosen tuple: the choice moves outwards
     if idx.op == "ite" and all(z.op in ("slice", "call", "const") for z in (idx.a[1], idx.a[2])) and any(z.op == "slice" or (z.op == "call" and callee_name(z.a[0]) == "builtins.slice") for z in (idx.a[1], idx.a[2])):
         return ite(idx.a[0], sub(base, idx.a[1]), sub(base, idx.a[2]))
-    if base.op == "ite" and idx.op == "const" and all(z.op in ("tuple", "list") for z in (base.a[1], base.a[2])):
+    if base.op == "ite" and idx.op == "const" and isinstance(idx.a[0], float) and idx.a[0] >= 0 and _tuple_tree(base, int(idx.a[0])):
         return ite(base.a[0], sub(base.a[1], idx), sub(base.a[2], idx))
     if idx.op == "slice" and all(x.op == "const" and x.a[0] is None for x in idx.a) and base.op in ("call", "param", "sub", "ite"):
         return mk("sub", base, idx)
     return mk("sub", base, idx)
 
 
+def _tuple_tree(t, k, depth=0):
+    """every alternative of the conditional tree is a display with a k-th component"""
+    if depth > 8:
+        return False
+    if t.op in ("tuple", "list"):
+        return 0 <= k < len(t.a)
+    if t.op == "ite":
+        return _tuple_tree(t.a[1], k, depth + 1) and _tuple_tree(t.a[2], k, depth + 1)
+    return False
+
+
 def proj(t, k):
     """k-th component of an unpacked value."""
     if t.op in ("tuple", "list") and 0 <= k < len(t.a):
         return t.a[k]
-    if t.op == "ite" and all(z.op in ("tuple", "list") for z in (t.a[1], t.a[2])):
+    if t.op == "ite" and _tuple_tree(t, k):
         return ite(t.a[0], proj(t.a[1], k), proj(t.a[2], k))
     if t.op == "comp" and t.a[0] == "list" and len(t.a[2]) == 1 and not t.a[3] and t.a[2][0].op not in ("call",) and k >= 0:
         # [E(x) for x in X][k] is E(X[k]) for an indexable X
